@@ -111,7 +111,18 @@ func (a *kAggregate) Next(ctx context.Context) ([]model.StepVector, error) {
 
 	result := a.vectorPool.GetVectorBatch()
 	for i, vector := range in {
-		a.aggregate(vector.T, &result, int(a.params[i]), vector.SampleIDs, vector.Samples)
+		// Same rules as the reference engine: a parameter which cannot be converted
+		// to an int64 (NaN, +/-Inf, out of range) fails the query and k < 1 selects nothing.
+		if !(a.params[i] <= math.MaxInt64 && a.params[i] >= math.MinInt64) {
+			return nil, errors.Newf("Scalar value %v overflows int64", a.params[i])
+		}
+		k := int(a.params[i])
+		if k < 1 {
+			result = append(result, a.vectorPool.GetStepVector(vector.T))
+			a.next.GetPool().PutStepVector(vector)
+			continue
+		}
+		a.aggregate(vector.T, &result, k, vector.SampleIDs, vector.Samples)
 		a.next.GetPool().PutStepVector(vector)
 	}
 
